@@ -40,22 +40,30 @@ def canon(tracks) -> dict:
     edges = {}
     for u, v in g.edges():
         edges[(int(u), int(v))] = {k: norm(tracks.get_edge_attr((u, v), k)) for k in ekeys}
-    return {"nodes": nodes, "edges": edges, "seg": seg_digest(tracks.segmentation)}
-
-
-def deep(tracks, counters: bool = False) -> dict:
-    """Everything the properties call 'state': canon plus unregistered attributes,
-    scale, registry, annotator activation, lookup tables, history stacks."""
-    g = tracks.graph
-    d = canon(tracks)
+    d = {"nodes": nodes, "edges": edges, "seg": seg_digest(tracks.segmentation)}
+    # every attribute stored on the graph, registered or not (custom attributes set through
+    # UserUpdateNodeAttrs, values of currently disabled features); an attribute whose value
+    # is None and a missing attribute are the same observation
     d["all_node_attrs"] = {
-        int(n): tuple(sorted((str(k), norm(v)) for k, v in a.items()))
+        int(n): tuple(sorted((str(k), norm(v)) for k, v in a.items() if v is not None))
         for n, a in g.nodes(data=True)
     }
     d["all_edge_attrs"] = {
-        (int(u), int(v)): tuple(sorted((str(k), norm(x)) for k, x in a.items()))
+        (int(u), int(v)): tuple(sorted((str(k), norm(x)) for k, x in a.items()
+                                       if x is not None))
         for u, v, a in g.edges(data=True)
     }
+    return d
+
+
+STATE_SECTIONS = ("nodes", "edges", "seg", "all_node_attrs", "all_edge_attrs")
+
+
+def deep(tracks, counters: bool = False) -> dict:
+    """Everything the properties call 'state': canon plus scale, registry, annotator
+    activation, lookup tables, history stacks."""
+    g = tracks.graph
+    d = canon(tracks)
     d["scale"] = None if tracks.scale is None else norm(list(tracks.scale))
     f = tracks.features
     d["features"] = {k: norm(dict(v)) for k, v in f.items()}
